@@ -169,6 +169,7 @@ type Decoder struct {
 	hasRun           bool
 	spanStack        []byte
 	insertBlockClose bool
+	heldToken        *Token
 	bufferedToken    *Token
 	lastError        error
 }
@@ -209,10 +210,11 @@ func (d *Decoder) Token() Token {
 // Every call to Token, even the first one, must be preceded by a call to Next.
 func (d *Decoder) Next() bool {
 	if d.insertBlockClose {
+		// Hand out the token that was held back for the virtual block quote end
+		// (as it was scanned, including its info string).
 		d.insertBlockClose = false
-		d.bufferedToken = &Token{
-			Data: d.s.Bytes(),
-		}
+		d.bufferedToken = d.heldToken
+		d.heldToken = nil
 		return true
 	}
 
@@ -243,6 +245,7 @@ func (d *Decoder) Next() bool {
 	currLevel := d.Quote()
 	if currLevel < prevLevel {
 		d.insertBlockClose = true
+		d.heldToken = t
 		d.bufferedToken = &Token{}
 		return true
 	}
